@@ -18,3 +18,12 @@ package federation
 //@   ensures err == nil ==> result != nil && fresh(result)
 //@   ensures err == nil ==> (nn(result) <==> ite(isInput, nn(a) || nn(b), nn(a) && nn(b)))
 //@   ensures err == nil && !nn(inner(a)) && !nn(inner(b)) ==> inner(result).Kind == inner(a).Kind && inner(a).Kind == inner(b).Kind && (inner(a).Kind != "LIST" ==> inner(result).Name == inner(a).Name && inner(a).Name == inner(b).Name)
+
+// ---- C06: merging same-alias selections writes only copies (and the caller's own slice, which it sorts and reuses,
+// as documented) - never the parsed query - (that no sub-selection is lost is checked by the bounded harness).
+//@ pred ownSet(ss *graphql.SelectionSet) = ss != nil && fresh(ss) && allocated(ss) && (ss.Selections == nil || (fresh(ss.Selections) && allocated(ss.Selections))) && (ss.Fragments == nil || (fresh(ss.Fragments) && allocated(ss.Fragments)))
+//@ func mergeSameAlias
+//@   assigns []*graphql.Selection
+//@   loop 1 invariant (last == nil || (fresh(last) && allocated(last))) && (isLastSelectionSetCopied ==> last != nil && ownSet(last.SelectionSet))
+//@   loop 2 invariant last != nil && fresh(last) && allocated(last) && ownSet(last.SelectionSet)
+//@   loop 3 invariant last != nil && fresh(last) && allocated(last) && ownSet(last.SelectionSet)
